@@ -17,12 +17,13 @@ type c09Sim struct {
 	oldIDs  []uint64
 	oldKeys [][2]uint64
 	props   [][2]uint64 // proposals (base,last) on channel 3
+	queue   []string    // follow-up ops (bounded trims after an adoption = one multi-batch trim)
 }
 
 func genC09(g *Gen) {
 	for i := 0; i < g.N; i++ {
 		g.Case()
-		kind := g.R.Pick(55, 20, 25)
+		kind := g.R.Pick(60, 10, 30)
 		s := &c09Sim{nextID: 100, nextCno: 1, nextCmd: 1}
 		switch kind {
 		case 0:
@@ -48,7 +49,7 @@ func genC09(g *Gen) {
 			for j := 0; j < nops; j++ {
 				op := c09GenOp(g, s)
 				if op != "reopen" && g.R.Chance(40) {
-					k := []int{1, 1, 2, 2, 3, 3, 4, 5, 6, 50}[g.R.Intn(10)]
+					k := []int{1, 1, 1, 2, 2, 2, 3, 3, 4, 6, 50}[g.R.Intn(11)]
 					g.Count(fmt.Sprintf("kill:k=%s", c09Bucket(k)))
 					emitC09(g, fmt.Sprintf("kill %d | %s", k, op))
 				} else {
@@ -135,8 +136,14 @@ func (s *c09Sim) recs(g *Gen, n int, strict bool) (string, bool) {
 }
 
 func c09GenOp(g *Gen, s *c09Sim) string {
+	if len(s.queue) > 0 && g.R.Chance(75) {
+		op := s.queue[0]
+		s.queue = s.queue[1:]
+		g.Count("trim:multi-batch-step")
+		return op
+	}
 	for {
-		switch g.R.Pick(22, 14, 22, 9, 7, 10, 11, 3) {
+		switch g.R.Pick(20, 13, 20, 9, 10, 8, 14, 3) {
 		case 0: // app
 			c := g.R.Range(1, 2)
 			mode := g.R.Pick(5, 3, 2)
@@ -260,12 +267,19 @@ func c09GenOp(g *Gen, s *c09Sim) string {
 				continue
 			}
 			th := uint64(g.R.Intn(int(s.hw[c]) + 1))
+			if th == 0 && g.R.Chance(90) {
+				th = s.hw[c]
+			}
 			if g.R.Chance(8) {
 				th = s.hw[c] + 1
 				g.Count("adopt:above-hw")
 			} else if th > s.local[c] {
 				s.local[c] = th
 				g.Count("adopt:advance")
+				mx := g.R.Range(1, 2)
+				for i := 0; i < g.R.Range(1, 4); i++ {
+					s.queue = append(s.queue, fmt.Sprintf("trim %d %d %d", c, th, mx))
+				}
 			}
 			return fmt.Sprintf("adopt %d %d", c, th)
 		case 5: // trim
